@@ -57,6 +57,7 @@ type Round struct {
 	Settle int  `json:"settle_us"`
 	// Catchup: (3 nodes) a second crash plan on the restarted node while it catches up (K2-th durable write, e.g. the
 	// install of a snapshot received from the leader)
+	Emptied bool `json:"emptied,omitempty"` // the round is the scenario "falls behind while the partition is emptied and snapshotted"
 	Catchup bool `json:"catchup"`
 	K2      int  `json:"k2"`
 	After2  bool `json:"after2"`
@@ -112,14 +113,37 @@ func genCase(t *rapid.T) Case {
 			}
 			r.Ops = append(append(append([]WOp(nil), r.Ops[:at]...), burst...), r.Ops[at:]...)
 		}
+		// now and then the whole round is the scenario "a replica that holds items goes down, falls far behind, and the
+		// partition is emptied and snapshotted meanwhile": it can only catch up through the snapshot of an empty index
+		emptied := c.Nodes == 3 && rapid.IntRange(0, 3).Draw(t, "emptied") == 0
+		armAt := -1
+		if emptied {
+			var ops []WOp
+			for _, id := range rapid.SliceOfNDistinct(rapid.IntRange(0, 7), 3, 6, rapid.ID[int]).Draw(t, "held") {
+				ops = append(ops, WOp{K: WInsert, Id: id, Meta: id % 5, Node: id % 3})
+			}
+			armAt = len(ops)
+			for j := 0; j < 20*c.Partitions; j++ {
+				ops = append(ops, WOp{K: WUpdate, Id: j % 8, Meta: j % 5, Node: j % 3})
+			}
+			ops = append(ops, WOp{K: WBatchRemove, Ids: []int{0, 1, 2, 3, 4, 5, 6, 7}}, WOp{K: WSnapshot})
+			ops = append(ops, rapid.SliceOfN(op, 0, 3).Draw(t, "tail")...)
+			r.Ops = ops
+		}
 		for j := range r.Ops {
 			ver++
 			r.Ops[j].Ver = ver
 		}
 		r.At = rapid.IntRange(0, len(r.Ops)-1).Draw(t, "at")
+		if emptied {
+			r.At, r.Emptied = armAt, true
+		}
 		r.N = rapid.IntRange(0, c.Nodes-1).Draw(t, "n")
 		r.P = rapid.IntRange(0, c.Partitions-1).Draw(t, "p")
 		r.K = rapid.IntRange(1, 6).Draw(t, "k")
+		if emptied {
+			r.K = rapid.IntRange(1, 2).Draw(t, "k1")
+		}
 		r.After = rapid.Bool().Draw(t, "after")
 		r.Settle = rapid.SampledFrom([]int{0, 0, 100, 500, 2000}).Draw(t, "settle")
 		if c.Nodes == 3 {
@@ -484,6 +508,9 @@ func check(c Case, o *pbt.Obs) *pbt.Failure {
 					}
 					if m.EmptySnapshotInstalls > 0 {
 						o.Label("restarted-replica-installed-the-snapshot-of-an-empty-partition")
+						if r.Emptied {
+							o.Label("restarted-replica-that-held-items-installed-the-snapshot-of-an-empty-partition")
+						}
 					}
 				}
 			}
